@@ -77,7 +77,7 @@ HookStep(S, h, nI, nR) ==
                                                 ELSE IF h.real = 1 THEN DecidedFalse(D, a)
                                                 ELSE IRLe(D[<<h.to, h.from>>], IRSub(IRNeg(h.d), IROf(One))))) = TRUE)]
             ELSE NewAtom(S, DlAtom(th, VarOf(h.ret), h.from, h.to, h.d), nI, nR)
-    [] h.k = "ovvar" -> [S EXCEPT !.ovs = S.ovs \cup {[id |-> h.id, vals |-> h.vals, lits |-> h.lits]}]
+    [] h.k = "ovvar" -> [S EXCEPT !.ovs = S.ovs \cup {[id |-> h.id, vals |-> h.vals, lits |-> h.lits, free |-> FALSE]}]
     [] OTHER -> S       \* "def", "dl", "oveq": contracts on the final state of the call
 
 RECURSIVE FoldHooks(_, _, _, _, _)
@@ -111,7 +111,8 @@ DlRelOK(S, h, nI, nR) ==
 \* C14: object variables
 OvValue(m, ov) == {ov.vals[i] : i \in {j \in DOMAIN ov.vals : LitTrue(m, ov.lits[j])}}
 OvOf(O, id) == CHOOSE ov \in O : ov.id = id
-OvExactlyOne(M, O) == \A ov \in O : \A m \in M : Cardinality(OvValue(m, ov)) = 1
+\* (variables created without the built-in exactly-one constraint - "free" - are only subject to OvDomain)
+OvExactlyOne(M, O) == \A ov \in {o \in O : ~o.free} : \A m \in M : Cardinality(OvValue(m, ov)) = 1
 OvEqOK(M, O, h) == \A m \in M : LitTrue(m, h.ret) = (OvValue(m, OvOf(O, h.a)) = OvValue(m, OvOf(O, h.b)))
 OvDomainOK(ev, O) ==
   \A ov \in O : SeqRange(ev.obs.ov[ov.id + 1]) = {ov.vals[i] : i \in {j \in DOMAIN ov.vals : ValOfLit(ev.vals, ov.lits[j]) # 0}}
@@ -203,6 +204,7 @@ Step(ev) ==
       stable == ev.stable = 1 /\ MD # {}
       key == ObsKey(ev)
       changed == key # last
+      OvsAfter == IF ev.e = "ov_new_var" /\ ev.free = 1 THEN {IF o.id = ev.ret THEN [o EXCEPT !.free = TRUE] ELSE o : o \in S.ovs} ELSE S.ovs
       defs2 == IF ev.e = "lra_def" THEN defs \cup {[x |-> ev.ret, e |-> LinOfJson(ev.l)]} ELSE defs
       vis2 == IF ev.e \in {"lra_new_var", "lra_def"} THEN lraVis \cup {ev.ret} ELSE lraVis
   IN /\ ev.n >= n
@@ -225,7 +227,7 @@ Step(ev) ==
      /\ Chk({"C12"}, "DlRelationAccepted", ev.e = "dl_rel" => ev.exc = 0)
      /\ Chk({"C12"}, "DlQuery", (ev.e \in Queries /\ stable) => QueryOK(ev))
      \* C14
-     /\ Chk({"C14"}, "OvExactlyOne", (creation \/ ev.e = "new_clause") => OvExactlyOne(M, S.ovs))
+     /\ Chk({"C14"}, "OvExactlyOne", (creation \/ ev.e = "new_clause") => OvExactlyOne(M, OvsAfter))
      /\ Chk({"C14"}, "OvEquality", \A i \in DOMAIN ev.hooks : ev.hooks[i].k = "oveq" => OvEqOK(M, S.ovs, ev.hooks[i]))
      /\ Chk({"C14"}, "OvDomain", OvDomainOK(ev, S.ovs))
      \* C09
@@ -244,7 +246,7 @@ Step(ev) ==
      /\ decs' = ev.decs
      /\ atoms' = S.atoms
      /\ thOK' = S.thOK
-     /\ ovs' = S.ovs
+     /\ ovs' = OvsAfter
      /\ defs' = defs2
      /\ lraVis' = vis2
      /\ seen' = IF creation \/ ev.e = "new_clause" THEN {}
